@@ -139,3 +139,72 @@ def obligations(src_root, contracts):
                     "label": None, "status": s["status"], "backend": "syntactic frame scan (ast)", "secs": 0.0, "reason": s["why"] if s["status"] != "discharged" else "",
                     "model": None, "path_notes": [s["why"]], "goal_size": 0, "replay": None, "clause": "every write primitive is under an effect contract or on the allow-list"})
     return out
+
+
+# ---- shared mutable class state (S-obligations) --------------------------------------------------------------------------------------------
+MUTATORS = {"append", "extend", "add", "update", "pop", "popleft", "remove", "insert", "clear", "setdefault", "sort", "discard", "appendleft"}
+
+
+def _mutable_literal(v):
+    if isinstance(v, (ast.List, ast.Dict, ast.Set)):
+        return True
+    return isinstance(v, ast.Call) and isinstance(v.func, ast.Name) and v.func.id in ("list", "dict", "set", "defaultdict", "deque", "OrderedDict")
+
+
+def shared_state_obligations(src_root):
+    """Per-file and per-run state must live in instances: a class attribute initialised to a mutable value and then mutated through `self`
+    (without `__init__` re-binding it) is ONE object shared by every instance - by every file processed by a worker thread (C11) and by
+    every run in the process (C09/C15).  One obligation per class attribute that is mutated through instances."""
+    out = []
+    for pkg in ("codemodder", "core_codemods"):
+        for dirpath, _, files in os.walk(os.path.join(src_root, pkg)):
+            if "/test" in dirpath or "scripts" in dirpath:
+                continue
+            for fn in sorted(files):
+                if not fn.endswith(".py"):
+                    continue
+                path = os.path.join(dirpath, fn)
+                rel = os.path.relpath(path, src_root)
+                try:
+                    tree = ast.parse(open(path, encoding="utf-8").read())
+                except SyntaxError:
+                    continue
+                for cls in [n for n in ast.walk(tree) if isinstance(n, ast.ClassDef)]:
+                    attrs = {}
+                    for b in cls.body:
+                        if isinstance(b, ast.Assign) and _mutable_literal(b.value):
+                            for t in b.targets:
+                                if isinstance(t, ast.Name):
+                                    attrs[t.id] = b.lineno
+                        elif isinstance(b, ast.AnnAssign) and b.value is not None and _mutable_literal(b.value) and isinstance(b.target, ast.Name):
+                            attrs[b.target.id] = b.lineno
+                    if not attrs:
+                        continue
+                    rebound, mutated = set(), {}
+                    for m in [b for b in cls.body if isinstance(b, (ast.FunctionDef, ast.AsyncFunctionDef))]:
+                        for n in ast.walk(m):
+                            if isinstance(n, (ast.Assign, ast.AnnAssign)):
+                                tg = n.targets if isinstance(n, ast.Assign) else [n.target]
+                                for t in tg:
+                                    if isinstance(t, ast.Attribute) and isinstance(t.value, ast.Name) and t.value.id == "self" and m.name == "__init__":
+                                        rebound.add(t.attr)
+                                    if isinstance(t, ast.Subscript) and isinstance(t.value, ast.Attribute) and isinstance(t.value.value, ast.Name) \
+                                            and t.value.value.id == "self":
+                                        mutated.setdefault(t.value.attr, n.lineno)
+                            elif isinstance(n, ast.AugAssign) and isinstance(n.target, ast.Attribute) and isinstance(n.target.value, ast.Name) \
+                                    and n.target.value.id == "self":
+                                mutated.setdefault(n.target.attr, n.lineno)
+                            elif isinstance(n, ast.Call) and isinstance(n.func, ast.Attribute) and n.func.attr in MUTATORS \
+                                    and isinstance(n.func.value, ast.Attribute) and isinstance(n.func.value.value, ast.Name) and n.func.value.value.id == "self":
+                                mutated.setdefault(n.func.value.attr, n.lineno)
+                    for a, line in sorted(attrs.items()):
+                        if a in mutated:
+                            ok = a in rebound
+                            why = (f"`{a}` is re-bound per instance in __init__" if ok else
+                                   f"class attribute `{a}` (line {line}) holds one mutable object for ALL instances and is mutated through `self` at line {mutated[a]}; "
+                                   "__init__ does not re-bind it: state leaks between files processed concurrently and between runs")
+                            out.append({"id": f"S/shared-state {rel} [{cls.name}.{a}]", "func": cls.name, "kind": "shared-state", "label": None,
+                                        "status": "discharged" if ok else "refuted", "backend": "syntactic scan (ast)", "secs": 0.0,
+                                        "reason": "" if ok else why, "model": None, "path_notes": [why], "goal_size": 0, "replay": None,
+                                        "clause": "mutable per-file / per-run state lives in the instance, not in the class"})
+    return out
